@@ -24,8 +24,9 @@ ABSTRACTED = ("exp", "log", "sqrt", "cbrt", "Phi", "cos", "sin", "pow")
 
 
 class Abstraction:
-    def __init__(self, ack_uf: bool = False):
+    def __init__(self, ack_uf: bool = False, linearize: bool = False):
         self.ack_uf = ack_uf
+        self.linearize = linearize
         self.memo: Dict[T, T] = {}
         self.atoms: Dict[str, List[tuple]] = {}  # fname -> [(fresh var, abstracted args, original)]
         self.counter = 0
@@ -66,9 +67,21 @@ class Abstraction:
                     memo[n] = tm._mk("app", tuple(new), n.val)
                 continue
             if all(a is b for a, b in zip(new, n.args)):
-                memo[n] = n
+                r = n
             else:
-                memo[n] = tm.rebuild(n, new)
+                r = tm.rebuild(n, new)
+            if self.linearize and r.op == "mul":
+                # every non-linear monomial becomes an opaque real (a weakening: unsat stays sound)
+                self.counter += 1
+                v = tm.var("@mul#%d" % self.counter)
+                key = ("mul", r)
+                prev = self.memo.get(key)
+                if prev is None:
+                    self.memo[key] = v
+                    r = v
+                else:
+                    r = prev
+            memo[n] = r
         return memo[t]
 
 
@@ -364,6 +377,7 @@ def solve(
     want_model: bool = True,
     keep_smt2: bool = False,
     tactic: Optional[str] = None,
+    linearize: bool = False,
 ) -> Result:
     """Satisfiability of the conjunction of `hyps` (terms of Boolean sort)."""
     t0 = time.time()
@@ -372,9 +386,9 @@ def solve(
         STATS["queries"] += 1
         STATS["unsat"] += 1
         return Result("unsat", seconds=0.0, reason="trivially false hypothesis")
-    ab = Abstraction(ack_uf=ack_uf)
+    ab = Abstraction(ack_uf=ack_uf, linearize=linearize)
     hs = [ab.run(h) for h in hyps]
-    ax = axiom_instances(ab, families)
+    ax = axiom_instances(ab, families) if not linearize else []
     # axioms may contain special applications only through abstracted args: they are built from
     # abstracted terms, so no further abstraction is needed
     ex = Z3Export()
